@@ -321,6 +321,8 @@ fn sequential(args: &Args) {
         let mut held: Vec<(u64, Held)> = vec![];
         let steps = r.range(10, 60);
         let mut trace: Vec<String> = vec![];
+        #[allow(unused_assignments)]
+        let mut poisoned = false;
         for _ in 0..steps {
             let hi = r.usize_below(handles.len());
             let cell = handles[hi].1;
@@ -353,7 +355,8 @@ fn sequential(args: &Args) {
                 }
                 5..=7 => {
                     let h = &handles[hi].0;
-                    let guard = h.lock().unwrap();
+                    // (a lock poisoned by the deliberate panic below is recovered the std way)
+                    let guard = h.lock().unwrap_or_else(|e| e.into_inner());
                     let curm = h.memory();
                     next_gen += 1;
                     let t = tag_region(next_gen, same);
@@ -366,9 +369,39 @@ fn sequential(args: &Args) {
                     cells[cell] = next_gen;
                     trace.push(format!("replace->{}", next_gen));
                 }
+                8 if r.chance(1, 3) => {
+                    // a replacement issued while the thread is unwinding from a panic (from the
+                    // destructor of a rollback guard that holds the lock): it completes like any other
+                    let h = &handles[hi].0;
+                    let guard = h.lock().unwrap_or_else(|e| e.into_inner());
+                    let curm = h.memory();
+                    next_gen += 1;
+                    let t = tag_region(next_gen, same);
+                    weaks.push((next_gen, Arc::downgrade(&t)));
+                    let (without, old) = curm.remove_region(GuestAddress(taddr(cur, same)), RSZ as u64).unwrap();
+                    let next = without.insert_region(t).unwrap();
+                    drop(old);
+                    drop(curm);
+                    struct Rollback<'a>(Option<vm_memory::atomic::GuestMemoryExclusiveGuard<'a, Map>>, Option<Map>);
+                    impl Drop for Rollback<'_> {
+                        fn drop(&mut self) {
+                            if let (Some(g), Some(m)) = (self.0.take(), self.1.take()) {
+                                g.replace(m);
+                            }
+                        }
+                    }
+                    let res = std::panic::catch_unwind(std::panic::AssertUnwindSafe(|| {
+                        let _rb = Rollback(Some(guard), Some(next));
+                        panic!("vmv: deliberate panic while holding the update lock");
+                    }));
+                    assert!(res.is_err());
+                    cells[cell] = next_gen;
+                    poisoned = true;
+                    trace.push(format!("replace-while-unwinding->{}", next_gen));
+                }
                 8 => {
                     // lock without replacing: must not change anything
-                    let g = handles[hi].0.lock().unwrap();
+                    let g = handles[hi].0.lock().unwrap_or_else(|e| e.into_inner());
                     drop(g);
                     trace.push("lock+unlock".into());
                 }
